@@ -510,8 +510,8 @@ class Pointwise:
             return e.attr.lstrip("_")
         if isinstance(e, ast.Attribute):
             ch = attr_chain(e)
-            if ch and ch.startswith("self.") and all(p_ in ("sim", "model", "event") for p_ in ch.split(".")[1:-1]):
-                return e.attr.lstrip("_")          # self.sim.model.x / self.event.x: the named quantity
+            if ch and ch.split(".")[0] in ("self", "sim", "source_event") and all(p_ in ("sim", "model", "event") for p_ in ch.split(".")[1:-1]):
+                return e.attr.lstrip("_")          # self.sim.model.x / self.event.x / source_event.x: the named quantity
         return None
 
     # -- expressions
@@ -707,6 +707,16 @@ class Pointwise:
             self.notes.append(f"`if {ast.unparse(st.test)}: raise` skipped (no NaN over the rationals)")
             return None
         if isinstance(st, ast.If) and isinstance(st.test, ast.Name) and st.test.id == "DEBUG_TRACE":
+            return None
+        if isinstance(st, ast.If) and not st.orelse and isinstance(st.test, ast.Compare) and len(st.test.ops) == 1 \
+                and isinstance(st.test.ops[0], (ast.NotEq, ast.Eq, ast.Lt, ast.Gt, ast.LtE, ast.GtE)) \
+                and all(isinstance(b, ast.Assign) and len(b.targets) == 1 and isinstance(b.targets[0], ast.Name) for b in st.body):
+            # `if a != b: x = E` on scalars: x := if a ≠ b then E else x
+            c = self.cond(st.test)
+            for b in st.body:
+                n = b.targets[0].id
+                cur = self.expr(b.targets[0])
+                self.let(n, f"if {c} then {self.expr(b.value)} else {cur}")
             return None
         if isinstance(st, ast.If) and not st.orelse and len(st.body) == 1 and isinstance(st.body[0], ast.Raise):
             t = st.test
@@ -930,6 +940,40 @@ def gen_formulas(trees, rec_tree):
             "(`reb_tau` is the event's rebuilding time, or the model's when the event has none).",
             nat_params=("n_temporal_units_by_step", "reb_tau"),
             fixed_params=[f"distributed_reb_dem_{which}", "n_temporal_units_by_step", "reb_tau"], body=only_return))
+    def conversion(var, source_attr):
+        """in `EventTracker.__init__`: `var = source_event.<source_attr>.copy()` and the conversion `if factors differ: var = var * (…)`
+        that follows (possibly under an `isinstance` test)"""
+        def find(stmts):
+            for k, st in enumerate(stmts):
+                if isinstance(st, ast.Assign) and len(st.targets) == 1 and isinstance(st.targets[0], ast.Name) \
+                        and st.targets[0].id == var and source_attr in ast.unparse(st.value):
+                    for nxt in stmts[k + 1:k + 3]:
+                        node = nxt
+                        if isinstance(node, ast.If) and "isinstance" in ast.unparse(node.test) and node.body and isinstance(node.body[0], ast.If):
+                            node = node.body[0]
+                        if isinstance(node, ast.If) and "monetary_factor" in ast.unparse(node.test):
+                            start = ast.Assign(targets=[ast.Name(id=var, ctx=ast.Store())], value=ast.Name(id=var + "_given", ctx=ast.Load()), lineno=0)
+                            return [start, node]
+                if isinstance(st, ast.If):
+                    got = find(st.body)
+                    if got:
+                        return got
+            return None
+
+        def sel(fn):
+            got = find(fn.body)
+            if got:
+                return got
+            raise Untranslatable(f"conversion of {var} not found")
+        return sel
+    tinit = find_func(tracker, "__init__")
+    parts.append(lean_formula(
+        "convert_impact_cell", tinit, "`EventTracker.__init__`: one entry of the industrial impact converted to the model's monetary unit.",
+        fixed_params=["impact_given", "event_monetary_factor", "monetary_factor"], body=conversion("impact", "impact"), result="impact"))
+    parts.append(lean_formula(
+        "convert_house_cell", tinit, "`EventTracker.__init__`: one entry of the household impact converted to the model's monetary unit.",
+        fixed_params=["impact_house_given", "event_monetary_factor", "monetary_factor"], body=conversion("impact_house", "impact_households"),
+        result="impact_house"))
     parts.append(lean_formula(
         "need_cell", orders_fn, "`calc_orders`: one (input, industry) cell of the need = inventory gap + input used by realised production.",
         fixed_params=["matrix_stock_gap", "production", "tech_mat"], body=aug_of("matrix_stock_gap"), result="matrix_stock_gap"))
